@@ -48,7 +48,7 @@ def renderOut (canon : State N → Value N → String) : Res N → Option String
   | (.err (.script _ _), _) => some "e"
   | _ => none
 
-theorem checkProgram_value (s : String) : Spec.checkProgram ⟨"v:" ++ s, "v:" ++ s, "v:" ++ s, "v:" ++ s⟩ = none := by
+theorem checkProgram_value (s : String) : Spec.checkProgram ⟨"v:" ++ s, "v:" ++ s, "v:" ++ s, "v:" ++ s, "v:" ++ s⟩ = none := by
   have hne : ("v:" ++ s) ≠ "timeout" := by
     intro h
     have := congrArg String.toList h
